@@ -37,6 +37,25 @@ UnitLensFull  == [ small           |-> <<1, 1, 1, 1, 1, 1>>,
                    one_above       |-> <<2048, 2048, 1, 32768, 32768, 1>> ]         \* 4097 and 65537
 AllSizes == {"small", "page_multiple", "zone_multiple", "one_below", "one_above"}
 
+\* invocation forms and setups (covering sets: every pair of values of two dimensions occurs)
+FormsDef == << [addr |-> "rel",      cwd |-> "imgdir", pub |-> "rel"],
+               [addr |-> "abs",      cwd |-> "imgdir", pub |-> "abs"],
+               [addr |-> "dotslash", cwd |-> "imgdir", pub |-> "otherdir"],
+               [addr |-> "rel",      cwd |-> "other",  pub |-> "rel"],
+               [addr |-> "mixed",    cwd |-> "other",  pub |-> "abs"],
+               [addr |-> "abs",      cwd |-> "other",  pub |-> "otherdir"] >>
+AltFormDef == <<5, 4, 6, 2, 1, 3>>
+SizeSeq == <<"small", "page_multiple", "zone_multiple", "one_below", "one_above">>
+DirSeq  == <<"flat", "samename", "mixed", "blanks">>
+SetupsDef     == {[size |-> SizeSeq[i], dirs |-> DirSeq[((i + j) % 4) + 1], form |-> j] : i \in 1..5, j \in 1..6}
+AuthSetupsDef == UNION {{[size |-> SizeSeq[i], dirs |-> DirSeq[((i + 2 * j) % 4) + 1], form |-> j] :
+                           j \in {k \in 1..6 : (i + k) % 3 = 0}} : i \in 1..5}
+\* quick tier: every size, directory layout and form at least once (twice for signonetime)
+SetupsQuick     == {[size |-> SizeSeq[((j - 1) % 5) + 1], dirs |-> DirSeq[((j - 1) % 4) + 1],
+                     form |-> ((j - 1) % 6) + 1] : j \in 1..12}
+AuthSetupsQuick == {[size |-> SizeSeq[((j - 1) % 5) + 1], dirs |-> DirSeq[(j % 4) + 1], form |-> j] : j \in 1..6}
+FlatSetups    == {s \in SetupsDef : s.dirs \in {"flat", "blanks"}}
+
 \* image 3 is another file with the bytes of image 1
 Contents3 == <<1, 2, 1>>
 Contents4 == <<1, 2, 1, 3>>
